@@ -40,6 +40,7 @@ PROFILES = {
     'copies':    dict(BASE, copies=40, pIssue=0, pGuardCancel=0, pGuardIssue=0, maxBatch=3, wReset=1, wExitEnter=1, wImmediate=3),
     'c15-core':  dict(BASE, kinds=0x4f, pGuardIssue=0, pGuardCancel=80, pIssue=40, maxBatch=3, pendq=0, wReset=1, wExitEnter=1, wQuery=1, pConsume=40, wfEvery=0),
     'c15-utility': dict(BASE, kinds=0x7f, pGuardIssue=0, pGuardCancel=80, pIssue=40, maxBatch=3, pendq=0, wReset=1, wExitEnter=1, wQuery=1, pConsume=40, wfEvery=0),
+    'c15-plans': dict(BASE, kinds=0x4f, pGuardIssue=0, pGuardCancel=60, pIssue=20, maxBatch=2, pendq=0, wReset=1, wExitEnter=1, wQuery=1, pConsume=30, wfEvery=0, wPlanEdit=4, wExtStatus=2, pSucceed=180, pFail=40, pPlanInCb=40, pHeadStatus=60),
     'payload':   dict(BASE, pGuardCancel=60, pGuardIssue=100, pIssue=80, maxBatch=4, pNoPayload=200),
 }
 PROFILES['memcheck'] = dict(PROFILES['burst'], _flavours=['gcc-vg'])      # valgrind memcheck: uninitialised reads, which ASan/UBSan do not see
@@ -418,7 +419,8 @@ def c15_defs(cfg, opts):
     if opts.get('notypeindex'): d.append('-DHFSM2_DISABLE_TYPEINDEX')
     return ' '.join(d)
 
-def c15_norm(path):
+def c15_norm(path, cap=None):
+    """normalised trace; cap (a list) receives the trace length at the first plan append rejected for lack of task capacity"""
     out = []
     keep = set('OcjkSDvE')
     try:
@@ -429,6 +431,9 @@ def c15_norm(path):
                     if t == 'S':        # isPending* / activity are not part of the common subset
                         p = l.split(); out.append(' '.join(p[:5]))
                     else: out.append(l.rstrip('\n'))
+                elif t == 'A' and cap is not None and not cap:
+                    p = l.split()
+                    if p[6] == '0': cap.append(len(out))
                 elif t == 'q':
                     p = l.split(); out.append('q %s %s %s' % (p[1], p[2], p[4]))
                 elif t == 'g':
@@ -449,7 +454,9 @@ def c15_job(job):
     args = ['steps=%d' % steps, 'seed=%d' % seed, 'log=' + logp, 'useLogger=0'] + knob_args(profile)
     rc, so, se = vlib.run_bin(binp, args, timeout=600)
     res['rc'] = rc; res['args'] = args
-    tr = c15_norm(logp)
+    cap = []
+    tr = c15_norm(logp, cap)
+    res['cap_at'] = cap[0] if cap else None
     try: os.unlink(logp)
     except OSError: pass
     if rc != 0 or tr is None: res['error'] = 'rc=%s %s' % (rc, se[-300:]); return res
@@ -465,12 +472,14 @@ def c15_engine(prop, tier, seed):
     families = [
         dict(name='core', fixed=(), profile='c15-core', strategies=['Composite', 'Resumable', 'Selectable']),
         dict(name='utility', fixed=('UTILITY_THEORY',), profile='c15-utility', strategies=shp.STRATS),
+        # plans kept on: plan execution must not depend on payload type (the plan executor exists once per payload flavour) or on the other switches
+        dict(name='plans', fixed=('PLANS',), profile='c15-plans', strategies=['Composite', 'Resumable', 'Selectable'], nshape=2 if tier == 'quick' else 4),
     ]
     jobs = []; meta = {}
     for fam in families:
         shapes_ = []
-        fixed = ['k_ortho_root', 'k_ortho_leafs', 'k_deep', 'k_ortho_wide9'] if fam['name'] == 'core' else ['k_util_ortho', 'k_compo_all', 'k_select_nested']
-        for i in range(nshape):
+        fixed = {'core': ['k_ortho_root', 'k_ortho_leafs', 'k_deep', 'k_ortho_wide9'], 'plans': ['k_ortho_root', 'k_headless', 'k_deep']}.get(fam['name'], ['k_util_ortho', 'k_compo_all', 'k_select_nested'])
+        for i in range(fam.get('nshape', nshape)):
             # every (activation, reaction order) combination appears among the first four programs
             cfg = dict(shp.DEFAULT_CFG); cfg['manual'] = i % 2; cfg['bottomup'] = ((i + 1) // 2) % 2
             if i < len(fixed) and (i % 2 == 0 or tier == 'thorough'): spec = shp.CURATED[fixed[i]]; nm = 'c15%s_%s' % (fam['name'][0], fixed[i])
@@ -501,7 +510,7 @@ def c15_engine(prop, tier, seed):
         res = list(ex.map(c15_job, jobs, chunksize=2))
     by = {}
     for r in res: by.setdefault(r['shape'], []).append(r)
-    evals = 0; distinct = set(); nocompile = {}; samples = []; compared = 0
+    evals = 0; distinct = set(); nocompile = {}; samples = []; compared = 0; capped = 0
     for name, rs in by.items():
         ok = [r for r in rs if 'trace' in r]
         for r in rs:
@@ -517,6 +526,10 @@ def c15_engine(prop, tier, seed):
             for r in g:
                 a = ref[0]['trace']; b = r['trace']; i = 0
                 while i < min(len(a), len(b)) and a[i] == b[i]: i += 1
+                if r['label'].endswith('taskcap+'):
+                    # more task capacity: comparable until an append is rejected for lack of capacity in either run (behaviour then depends on it)
+                    lim = min(x for x in (ref[0].get('cap_at'), r.get('cap_at'), 10 ** 9) if x is not None)
+                    if i >= lim: capped += 1; continue
                 run = {'shape': name, 'desc': meta[name][1]['desc'], 'cfg': meta[name][1]['cfg'], 'flavour': r['flavour'], 'profile': 'c15', 'seed': seed, 'steps': T['steps'], 'args': r['args'], 'sj': meta[name][1], 'defs': r['defs']}
                 V.add('trace|behaviour-differs-between-configurations|' + c15_class(r['label']), 1, {'configuration': r['label'], 'reference': ref[0]['label'], 'event': i, 'reference-events': a[i:i + 3], 'this-configuration': b[i:i + 3]}, run)
         evals += sum(len(r['trace']) for r in ok); compared += len(ok)
@@ -524,7 +537,7 @@ def c15_engine(prop, tier, seed):
         if len(samples) < 3: samples.append({'shape': name, 'desc': meta[name][1]['desc'][:160], 'family': meta[name][0], 'configurations-compared': len(ok), 'trace-events': len(ref[0]['trace']), 'example-configurations': [r['label'] for r in ok[:6]]})
     cov = {'evaluations': evals, 'distinct_nontrivial': len(distinct), 'samples': samples,
            'rule': 'evaluations = normalised trace events (callbacks, requests, guard views, quiescent configurations) compared across builds of the same generated program; distinct_nontrivial = distinct (program, configuration, build flavour) members of the comparison. Configuration label = bits for ' + '/'.join(FEATURES) + ' | logging mode | payload',
-           'configurations_compared': compared, 'configurations_that_do_not_compile': nocompile, 'programs': len(by),
+           'configurations_compared': compared, 'task_capacity_variants_compared_up_to_the_first_rejected_append': capped, 'configurations_that_do_not_compile': nocompile, 'programs': len(by),
            'note': 'combinations that do not compile (SERIALIZATION + STRUCTURE_REPORT without TRANSITION_HISTORY) are outside the property\'s quantifier and are listed, not judged'}
     return V.finish(cov, ['programs are restricted to the feature subset common to all members of a family (core: composite/resumable/selectable/orthogonal regions, requests, guards, update/react/query/reset/enter/exit; utility family: utility theory on in all members)', 'guards cancel but do not substitute, so the substitution limit is never reached and SubstitutionLimitN<4> / <7> are comparable', 'traces are compared after dropping what only exists under a feature (history, payload ids, logger records, structure report)'])
 
